@@ -27,7 +27,8 @@ PROPS = {
     "C03": dict(units=["comm"], kani=[], level="proof"),
     "C04": dict(units=["comm"], kani=[], level="proof"),
     "C05": dict(units=["spawn"], kani=["w_make_standard_stream", "w_dup2", "w_pipe", "w_set_inheritable"], level="proof"),
-    "C06": dict(units=["spawn", "exec"], kani=["w_fork_ids", "w_os_to_cstring_b4"], level="proof"),
+    "C06": dict(units=["spawn", "exec", "builder"], kani=["w_fork_ids", "w_os_to_cstring_b4"], level="proof",
+                natives=[("units/native/format_env.nt.rs", "9331 environment lists: all lists of 0..5 entries over the names {A,B,CC} and the values {empty, x}")]),
     "C07": dict(units=["spawn", "exec"], kani=["w_pipe", "w_fork_ids"], level="proof"),
     "C15": dict(units=["exec"], kani=["b_split_path_b3"], level="proof"),
     "C17": dict(units=["spawn", "exec"], kani=[], level="proof"),
